@@ -42,7 +42,7 @@ fn input(spec: &str) -> (SchemaRef, Vec<RecordBatch>) {
 }
 
 /// drive the OCF writer over `sink`; `marks` receives the sink length after the header and after each batch
-fn drive_writer(spec: &str, sink: FaultSink, marks: &mut Vec<usize>) -> Result<(), String> {
+fn drive_writer(spec: &str, sink: FaultSink, marks: &mut Vec<usize>, out: &mut Outcome) -> Result<(), String> {
     let (schema, batches) = input(spec);
     let mut w = WriterBuilder::new(schema.as_ref().clone()).build::<_, AvroOcfFormat>(sink.clone()).map_err(|e| e.to_string())?;
     marks.push(sink.data().len());
@@ -57,6 +57,16 @@ fn drive_writer(spec: &str, sink: FaultSink, marks: &mut Vec<usize>) -> Result<(
     if res.is_ok() {
         res = w.finish().map_err(|e| e.to_string());
     }
+    if res.is_err() {
+        // the caller finalises anyway (cleanup path / retry)
+        out.accepted_at_error = Some(sink.data().len());
+        if w.finish().is_ok() {
+            out.later_ok.push("finish#1".into());
+        }
+        if w.finish().is_ok() {
+            out.later_ok.push("finish#2".into());
+        }
+    }
     sink.mark_done();
     res
 }
@@ -67,7 +77,7 @@ fn file(spec: &str) -> Arc<File> {
     }
     let sink = FaultSink::new(vec![], false);
     let mut marks = vec![];
-    drive_writer(spec, sink.clone(), &mut marks).expect("fault-free avro write");
+    drive_writer(spec, sink.clone(), &mut marks, &mut Outcome::default()).expect("fault-free avro write");
     let (_, batches) = input(spec);
     let bytes = sink.data();
     let mut blocks = vec![];
@@ -182,7 +192,7 @@ fn run_avrorf(t: &[&str], fails: &mut Fails) -> String {
 fn fault_free_trace(spec: &str) -> (usize, Vec<String>) {
     let sink = FaultSink::new(vec![], false);
     let mut m = vec![];
-    drive_writer(spec, sink.clone(), &mut m).expect("fault-free avro write");
+    drive_writer(spec, sink.clone(), &mut m, &mut Outcome::default()).expect("fault-free avro write");
     (sink.data().len(), sink.trace())
 }
 
@@ -194,8 +204,28 @@ fn run_avrowf(t: &[&str], fails: &mut Fails) -> String {
     }
     let sink = FaultSink::new(parse_sched(sched), true);
     let mut m = vec![];
-    let res = drive_writer(spec, sink.clone(), &mut m);
+    let mut out = Outcome::default();
+    let res = drive_writer(spec, sink.clone(), &mut m, &mut out);
     let data = sink.data();
+    let accepted = sink.accepted(out.accepted_at_error);
+    if !out.later_ok.is_empty() {
+        // no later finish may report success unless the sink holds a complete container with all rows
+        let (got, ok) = read_all(Cursor::new(data.clone()));
+        let (_, batches) = input(spec);
+        let mut tmp = Fails::new();
+        let rows = rows_prefix_ok(spec, &got, &mut tmp);
+        if data.len() != good_len || !ok || rows != total_rows(&batches) || !tmp.is_empty() {
+            fails.push((
+                "kf:avro-ok-after-failed-write".into(),
+                format!(
+                    "{} returned Ok after an earlier call had failed, but the sink holds {} of {good_len} bytes ({rows} of {} rows readable)",
+                    out.later_ok.join("+"),
+                    data.len(),
+                    total_rows(&batches)
+                ),
+            ));
+        }
+    }
     if data.len() > good_len {
         fails.push(("not-a-prefix".into(), format!("sink holds {} bytes, the fault-free output has {good_len}", data.len())));
     }
@@ -210,7 +240,7 @@ fn run_avrowf(t: &[&str], fails: &mut Fails) -> String {
             fails.push(("ok-but-unreadable".into(), format!("output of a successful writer reads back as {rows} rows (clean end: {ok})")));
         }
     }
-    format!("accepted={} res={}", data.len(), if res.is_ok() { "ok" } else { "err" })
+    format!("accepted={accepted} res={}", if res.is_ok() { "ok" } else { "err" })
 }
 
 fn run_case_inner(line: &str, fails: &mut Fails) -> String {
